@@ -53,7 +53,7 @@ def history_plan(workload, tier, seed, features=(), native_ops=6000, miri_ops=60
         jobs += shards(asan, workload, "main", 16, asan_ops * 8, seed + 4000, extra, timeout=3000, env_extra=aenv)
         if "small" in worlds:
             jobs += shards(asan, workload, "small", 8, asan_ops * 8, seed + 4500, extra, timeout=3000, env_extra=aenv)
-        jobs += shards(vg, workload, "main", 8, native_ops // 2, seed + 5000, extra, timeout=3000, env_extra=None)
+        jobs += shards(vg, workload, "main", 8, native_ops // 2, seed + 5000, extra, timeout=3000, env_extra=None if leaks else {"VERIF_NOLEAK": "1"})
     if tools:
         jobs = [j for j in jobs if j.cfg.tool in tools]
     return jobs
